@@ -94,6 +94,11 @@ Theorem cost_refuted : forall k,
   /\ (2 ^ S k <= cost G_xml (fuel_bound G_xml_R (nested_doc k)) (NT nt_document) (nested_doc k))%nat.
 Proof. intros k. split; [apply nested_doc_length|apply run_cost_exponential]. Qed.
 
+(** hence the bound [cost_polynomial] of the design has no instance *)
+Theorem cost_not_polynomial : forall c d, exists s,
+  (c * (length s + 1) ^ d < cost G_xml (fuel_bound G_xml_R s) (NT nt_document) s)%nat.
+Proof. exact run_cost_not_polynomial. Qed.
+
 Example nested_doc_accepted : exists d, pipeline_parse (nested_doc 3) = OOk ([], d).
 Proof. eexists. vm_compute. reflexivity. Qed.
 
@@ -108,3 +113,4 @@ Print Assumptions expansion_terminates_pinned.
 Print Assumptions expansion_diverges_pinned.
 Print Assumptions depth_unbounded.
 Print Assumptions cost_refuted.
+Print Assumptions cost_not_polynomial.
